@@ -765,8 +765,9 @@ def roi_from_points(
 
     ny, nx = shape
 
-    _in = np.floor(xy.min(axis=0)).astype("int32") - padding
-    _out = np.ceil(xy.max(axis=0)).astype("int32") + padding
+    # clip before casting: points far outside must not overflow the integer type
+    _in = np.clip(np.floor(xy.min(axis=0)), -(2**62), 2**62).astype("int64") - padding
+    _out = np.clip(np.ceil(xy.max(axis=0)), -(2**62), 2**62).astype("int64") + padding
 
     if align is not None:
         _in = align_down(_in, align)
